@@ -156,7 +156,17 @@ func (w *treapWorld) bound(i int) []byte {
 func (w *treapWorld) step(l, obs tla.Value) (string, int64) {
 	switch l.F("a").Str() {
 	case "Init":
-		w.vers = []*rffldb.VerifTreapImmutable{rffldb.VerifNewImmutable()}
+		first := rffldb.VerifNewImmutable()
+		if l.Has("init") {
+			var kvs []rffldb.VerifTreapKVPair
+			for _, k := range l.F("init").Seq() {
+				kvs = append(kvs, rffldb.VerifTreapKVPair{Key: w.tc.key[k.Int()], Value: w.tc.val[l.F("initval").Str()]})
+			}
+			if len(kvs) > 0 {
+				first = first.Put(kvs...)
+			}
+		}
+		w.vers = []*rffldb.VerifTreapImmutable{first}
 		w.mut = rffldb.VerifNewMutable()
 	case "IPut":
 		var kvs []rffldb.VerifTreapKVPair
